@@ -2127,7 +2127,11 @@ const (
 
 // Format formats the node.
 func (node *JoinTableExpr) Format(buf *TrackedBuffer) {
-	buf.Myprintf("%v %s %v%v", node.LeftExpr, node.Join, node.RightExpr, node.Condition)
+	buf.Myprintf("%v", node.LeftExpr)
+	if node.Strategy == LookupJoinStrategy || node.Strategy == StreamJoinStrategy {
+		buf.Myprintf(" %s", node.Strategy)
+	}
+	buf.Myprintf(" %s %v%v", node.Join, node.RightExpr, node.Condition)
 }
 
 func (node *JoinTableExpr) walkSubtree(visit Visit) error {
